@@ -8,7 +8,7 @@ use crate::model::Ins;
 use crate::obs::{self, fmt_obs, slot_of};
 use crate::ops::{self, guarded, Outcome};
 use crate::payload::Payload;
-use crate::step::{Failure, Props, C01, C02};
+use crate::step::{Failure, Props, C01, C02, C10};
 use indextree::{Arena, NodeId};
 use rayon::prelude::*;
 use std::collections::HashSet;
@@ -25,6 +25,8 @@ pub enum FOp {
     Detach(usize),
     Remove(usize),
     RemoveSubtree(usize),
+    /// serde_json round trip (engine built with `deser`)
+    RoundTrip,
 }
 
 impl FOp {
@@ -37,6 +39,7 @@ impl FOp {
             FOp::Detach(x) => format!("detach {}", x + 1),
             FOp::Remove(x) => format!("remove {}", x + 1),
             FOp::RemoveSubtree(x) => format!("remove_subtree {}", x + 1),
+            FOp::RoundTrip => "serde_round_trip".into(),
         }
     }
 }
@@ -90,6 +93,9 @@ fn enabled(s: &FState, n_max: usize, a_max: usize) -> Vec<FOp> {
             v.push(FOp::RemoveSubtree(x));
         }
     }
+    if cfg!(feature = "it-deser") {
+        v.push(FOp::RoundTrip);
+    }
     v
 }
 
@@ -125,6 +131,7 @@ fn apply(s: &FState, op: FOp) -> (FState, Outcome) {
             Ok(()) => Outcome::Unit,
             Err(m) => Outcome::Panic(m),
         },
+        FOp::RoundTrip => ops::apply(&mut n.arena, &s.cur, ops::Op::RoundTrip, &[]),
     };
     if let Outcome::Id(id) = &out {
         let x = slot_of(*id);
@@ -177,6 +184,9 @@ fn judge(s: &FState, target: Props) -> Vec<Failure> {
     }
     if target & C02 != 0 {
         out.extend(judges::j02(&obs));
+    }
+    if target & C10 != 0 && judges::j01(&s.arena, &obs).is_empty() && judges::j02(&obs).is_empty() {
+        out.extend(c10_law(&s.arena, &obs));
     }
     // a single next() of descendants/traverse can loop for ever on links that are already known to
     // be inconsistent or cyclic: the iterators are only driven over arenas whose links are sound
@@ -323,4 +333,76 @@ pub fn explore(n_max: usize, a_max: usize, target: Props, threads: usize, deadli
     }
     rep.wall_s = t0.elapsed().as_secs_f64();
     rep
+}
+
+/// C10 as a model-free law: for every node the arena reports live, the three double-ended
+/// iterators pulled in any front/back pattern yield the elements of their own forward sequence,
+/// front pulls in forward order, back pulls in backward order, each exactly once, then `None`.
+fn c10_law(arena: &Arena<Payload>, obs: &[obs::SlotObs]) -> Vec<Failure> {
+    let mut out = Vec::new();
+    let n = obs.len();
+    for (x, o) in obs.iter().enumerate() {
+        if o.removed {
+            continue;
+        }
+        let id = o.id;
+        for which in 0..3 {
+            let name = ["children", "preceding_siblings", "following_siblings"][which];
+            macro_rules! mk {
+                () => {
+                    match which {
+                        0 => Box::new(id.children(arena)) as Box<dyn DoubleEndedIterator<Item = NodeId>>,
+                        1 => Box::new(id.preceding_siblings(arena)),
+                        _ => Box::new(id.following_siblings(arena)),
+                    }
+                };
+            }
+            let fwd: Vec<NodeId> = match guarded(|| mk!().take(n + 2).collect::<Vec<_>>()) {
+                Ok(v) => v,
+                Err(_) => continue,
+            };
+            if fwd.len() > n {
+                continue; // not finite: C02's business
+            }
+            let l = fwd.len();
+            let plen = l + 2;
+            for pat in 0u32..(1 << plen) {
+                let got = guarded(|| {
+                    let mut it = mk!();
+                    (0..plen).map(|k| if pat >> k & 1 == 0 { it.next() } else { it.next_back() }).collect::<Vec<_>>()
+                });
+                let mut exp = Vec::with_capacity(plen);
+                let (mut i, mut j) = (0usize, l);
+                for k in 0..plen {
+                    if i >= j {
+                        exp.push(None);
+                    } else if pat >> k & 1 == 0 {
+                        exp.push(Some(fwd[i]));
+                        i += 1;
+                    } else {
+                        j -= 1;
+                        exp.push(Some(fwd[j]));
+                    }
+                }
+                if got.as_ref().ok() != Some(&exp) {
+                    let pat_txt: String = (0..plen).map(|k| if pat >> k & 1 == 0 { 'F' } else { 'B' }).collect();
+                    out.push(Failure {
+                        props: C10,
+                        judge: "double-ended",
+                        shaping: false,
+                        sig: format!("double-ended|{name}|free|pulls-disagree-with-own-forward-sequence"),
+                        detail: format!(
+                            "{name}({}) yields {:?} forwards, but pulled {pat_txt} (F=next, B=next_back) it gives {:?}; arena: {}",
+                            x + 1,
+                            fwd.iter().map(|i| obs::fmt_id(Some(*i))).collect::<Vec<_>>(),
+                            got.map(|g| g.iter().map(|i| obs::fmt_id(*i)).collect::<Vec<_>>()),
+                            fmt_obs(obs)
+                        ),
+                    });
+                    break;
+                }
+            }
+        }
+    }
+    out
 }
